@@ -199,3 +199,77 @@ Lemma logged_open s0 h u since before x : hist_init s0 -> since <= 0 -> before <
   logged_sel (st (reach s0 h)) u since before x = hs_deleted_for (abs (st (reach s0 h))) u x.
 Proof. intros HI H1 H2. apply logged_sel_open; [apply reach_wf; exact HI|exact H1|exact H2]. Qed.
 End Thm.
+
+(* ------------------------------------------------------------------ *)
+(* "soft deletion requires read permission": the code asks for R only when D is missing *)
+
+Definition soft_needs_read_statement : Prop :=
+  forall f s c sid u req d,
+    h_out (del_msg del_ranges_i f s c 0 sid u req false) = [(sid, Ctrl 200 [(P_del, d)])] ->
+    is_reader (user_mode c u) = true.
+
+Definition wit_cache : cache :=
+  mkCache 1 0 1%N 47%N 0%N [(1%N, mkPud 255 255 0 0 0 1); (2%N, mkPud 69 69 0 0 0 1)] [(1%N, (1%N, false)); (2%N, (2%N, false))].
+Definition wit_store : store :=
+  mkStore true 1 0 1%N 47%N 0%N [mkSub 1 255 255 0 0 0 false; mkSub 2 69 69 0 0 0 false] [mkMsg 1 1%N 7%N 0] [] [(1%N, 47%N); (2%N, 47%N)].
+
+(* user 2 has JWD (no R): his soft delete of message 1 is accepted *)
+Lemma soft_needs_read_refuted : ~ soft_needs_read_statement.
+Proof.
+  intros H. specialize (H NoFault wit_store wit_cache 2%N 2%N [(1, 0)] 1).
+  assert (is_reader (user_mode wit_cache 2%N) = true) as R by (apply H; vm_compute; reflexivity).
+  vm_compute in R. discriminate.
+Qed.
+
+(* for a requester without D the statement holds, whatever the faults *)
+Lemma soft_needs_read_partial f s c sid u req hard d :
+  is_deleter (user_mode c u) = false ->
+  h_out (del_msg del_ranges_i f s c 0 sid u req hard) = [(sid, Ctrl 200 [(P_del, d)])] ->
+  is_reader (user_mode c u) = true.
+Proof.
+  intros D. unfold del_msg. rewrite D. cbn [negb andb]. destruct (is_reader (user_mode c u)); [reflexivity|].
+  cbn. intros H. inv H.
+Qed.
+
+(* ------------------------------------------------------------------ *)
+(* the refinement does not survive a store fault in the middle of a delete request: the
+   log rows and the erased message rows of the failed request stay *)
+
+Definition refines_any_fault_statement : Prop :=
+  forall sm s0 h, hist_init s0 -> Forall (fun fo => op_ok sm (snd fo)) h ->
+    heq (abs (st (reach sm s0 h))) (hs_run del_ranges_i norm_ranges_i sm (mkState s0 None 0) h (abs s0)).
+
+Definition wit_s0 : store := ad_sub_create (mkStore true 0 0 0%N 47%N 0%N [] [] [] [(1%N, 47%N)]) 1%N 255%N 255%N.
+Definition wit_hist : list (fault * op) :=
+  [(NoFault, OSub 1 [] false); (NoFault, OPub 1 7 false); (FailAt 2, ODelMsg 1 [(1, 0)] true)].
+
+Lemma refines_any_fault_refuted : ~ refines_any_fault_statement.
+Proof.
+  intros H. specialize (H [(1%N, 1%N)] wit_s0 wit_hist).
+  destruct H as [L _].
+  - vm_compute. repeat split.
+  - repeat constructor; cbn; discriminate.
+  - specialize (L 1). vm_compute in L. discriminate.
+Qed.
+
+(* non-vacuity: a history with publishes, a soft delete by a member without D who asked for a
+   hard one, a hard delete by the owner, history and deletion log read by both *)
+Definition ex_s0 : store :=
+  ad_sub_create (ad_sub_create (mkStore true 0 0 0%N 47%N 0%N [] [] [] [(1%N, 47%N); (2%N, 47%N)]) 1%N 255%N 255%N) 2%N 47%N 47%N.
+Definition ex_hist : list (fault * op) :=
+  map (fun o => (NoFault, o))
+    [OSub 1 [] false; OSub 2 [] false; OPub 1 7 false; OPub 2 8 false; OPub 1 9 false;
+     ODelMsg 2 [(1, 3)] true;             (* user 2 has no D: soft, for user 2 only *)
+     OGetData 2 0 0 0; OGetData 1 0 0 0;
+     ODelMsg 1 [(3, 0); (2, 0)] true;     (* owner: hard *)
+     OGetData 1 0 0 0; OGetDel 2 0 0 0; OGetDel 1 0 0 0].
+Lemma history_example :
+  let r := run_i [(1%N, 1%N); (2%N, 2%N)] (mkState ex_s0 None 0) ex_hist in
+  map (fun o => map (fun e => fst (fst e)) (data_of o)) (skipn 5 (snd r)) =
+    [[]; [3]; [3; 2; 1]; []; [1]; []; []] /\
+  nth 5 (snd r) [] = [(2%N, Ctrl 200 [(P_del, 1)])] /\
+  nth 8 (snd r) [] = [(1%N, Ctrl 200 [(P_del, 2)])] /\
+  nth 10 (snd r) [] = [(2%N, MetaDel 2 [(1, 4)])] /\
+  nth 11 (snd r) [] = [(1%N, MetaDel 2 [(2, 4)])] /\
+  map m_delid (msgs (st (fst r))) = [0; 2; 2].
+Proof. vm_compute. repeat split. Qed.
